@@ -256,6 +256,14 @@ def execute(scn, L):
     if parsed is None:
         out.states.add('%s|reject|%s' % (ctx, symclass()))
 
+        # the same line through the object-model loader (same reader,
+        # possibly other parameters): it cannot succeed either
+        try:
+            L.DiffX.from_bytes(data)
+            out.violate('C11.invalid-accepted', ctx + ':from_bytes', info)
+        except Exception:
+            pass
+
         if len(recs) > idx or end == 'eof':
             info['options'] = recs[idx].get('options') \
                 if len(recs) > idx and isinstance(recs[idx], dict) else None
